@@ -30,6 +30,7 @@ func (s *Sem) sessionTyped(c ssa.CallInstruction) bool {
 func c06(r *Report, s *Sem) {
 	p := r.P
 	a := s.anchors()
+	defer r.Import(s, "C13", "R9", "R11", "a server-initiated end always reaches the state: the session hand-off queue has constant capacity ≥ 1, so the receiver can park the terminal envelope and record the terminal state even when nobody waits for a session envelope (unbuffered, the state stays 'established' and sends keep succeeding)", 1)
 	defer r.Import(s, "C01", "R3", "R10", "a data envelope is never taken for a session envelope: with the identifying members of a message, notification or command present the discriminator cannot answer the session tag (so the handshake's checked read refuses it and aborts)", 4, "never classified as a session")
 	R1 := r.Rule("R1", "every Transport.Send call that can carry a data envelope is dominated by guard facts 'transport connected' and 'state == established' (facts are recomputed from the predicate wrappers' bodies)", 1)
 	R2 := r.Rule("R2", "the only Transport.Send sites exempt from R1 take a *Session (so no data envelope can use them — type-level)", 1)
